@@ -159,11 +159,13 @@ impl<R: std::io::Read> std::io::Read for ZipCryptoReaderValid<R> {
         // Note: There might be potential for optimization. Inspiration can be found at:
         // https://github.com/kornelski/7z/blob/master/CPP/7zip/Crypto/ZipCrypto.cpp
 
-        let result = self.reader.file.read(buf);
-        for byte in buf.iter_mut() {
+        // Only the bytes actually read may advance the key stream: the underlying
+        // reader is free to return fewer bytes than the buffer holds.
+        let count = self.reader.file.read(buf)?;
+        for byte in buf[..count].iter_mut() {
             *byte = self.reader.keys.decrypt_byte(*byte);
         }
-        result
+        Ok(count)
     }
 }
 
